@@ -553,6 +553,9 @@ def subst_star(v, n, _d=0):
                    uid=v.uid, fname=None if not isinstance(v.fn, str) else v.fname)
     if isinstance(v, Op):
         return Op(v.op, *[r(a) for a in v.operands])
+    from .terms import NTuple
+    if isinstance(v, NTuple):
+        return NTuple([r(a) for a in v], v.names, v.qual)
     if isinstance(v, tuple):
         return tuple(r(a) for a in v)
     if isinstance(v, list):
